@@ -504,11 +504,17 @@ Section SBSeq_64.
                length vs = length cs /\ joinf (combine vs (clip (8 * L) 0 cs)) = mval mem.
   Proof.
     intros HL Hl Hs.
-    destruct (safe_cut_sequence_reconstructs_gen sb_u64 (8 * L) mk okn sb_legal_64 anypos (sb_u64_safe_cut fuel mem)) with (n := M) (cs := cs) as [vs [E [Len J]]];
-      auto; try exact I; unfold sb_legal_64, okn; try lia; try reflexivity.
+    destruct (safe_cut_sequence_reconstructs_gen sb_u64 (8 * L) mk okn anypos (sb_u64_safe_cut fuel mem) ltac:(lia) sb_legal_64 (fun n => n))
+      with (n := M) (cs := cs) as [vs [E [Len J]]];
+      auto; try exact I; unfold okn, anypos, sb_legal_64 in *; try lia; try reflexivity.
     - intros; apply sb_u64_Hsafe; auto.
-    - exists vs. rewrite mk_start, mk_end in E. rewrite mval_mod in J. auto.
+    - intros n0 c Hn0 Ho0 Hc0 Hw0. rewrite sb_u64_Hsafe by (auto; lia).
+      replace (Z.min c (8 * L - 0)) with (8 * L) by lia. rewrite Z.add_0_l. f_equal. f_equal.
+      unfold okn in Hn0. subst n0. rewrite field_whole by lia. apply mval_mod.
+    - exists vs. rewrite mk_start, mk_end in E. split; [exact E|]. split; [exact Len|].
+      destruct J as [J|J]; rewrite J; [apply mval_mod|reflexivity].
   Qed.
+
 
   (** safe_cut never reads a byte index >= size: in the model an out-of-bounds read is [None], and every
       sequence of safe cuts from the start evaluates to [Some]. *)
@@ -516,11 +522,16 @@ Section SBSeq_64.
     exists vs st, run sb_u64 (sb_u64_safe_cut fuel mem) (mk_sb_u64 0 0 0 L) cs = Some (vs, st).
   Proof.
     intros HL Hl. rewrite <- mk_start.
-    destruct (run_safe_spec sb_u64 (8 * L) mk okn sb_legal_64 anypos (sb_u64_safe_cut fuel mem)) with (cs := cs) (n := M) (s := 0)
-      as [vs [E _]]; auto; try exact I; unfold sb_legal_64, okn; try lia; try reflexivity.
+    destruct (run_safe_from_start sb_u64 (8 * L) mk okn anypos (sb_u64_safe_cut fuel mem) ltac:(lia) sb_legal_64 (fun n => n))
+      with (n := M) (cs := cs) as [vs [E _]];
+      auto; try exact I; unfold okn, anypos, sb_legal_64 in *; try lia; try reflexivity.
     - intros; apply sb_u64_Hsafe; auto.
+    - intros n0 c Hn0 Ho0 Hc0 Hw0. rewrite sb_u64_Hsafe by (auto; lia).
+      replace (Z.min c (8 * L - 0)) with (8 * L) by lia. rewrite Z.add_0_l. f_equal. f_equal.
+      unfold okn in Hn0. subst n0. rewrite field_whole by lia. apply mval_mod.
     - eauto.
   Qed.
+
 End SBSeq_64.
 
 (** ** Sequence theorems for split_bitstring<_, _, u32> (any array size; any start; widths 1..32) *)
@@ -578,11 +589,17 @@ Section SBSeq_32.
                length vs = length cs /\ joinf (combine vs (clip (8 * L) 0 cs)) = mval mem.
   Proof.
     intros HL Hl Hs.
-    destruct (safe_cut_sequence_reconstructs_gen sb_u32 (8 * L) mk okn sb_legal_32 anypos (sb_u32_safe_cut fuel mem)) with (n := M) (cs := cs) as [vs [E [Len J]]];
-      auto; try exact I; unfold sb_legal_32, okn; try lia; try reflexivity.
+    destruct (safe_cut_sequence_reconstructs_gen sb_u32 (8 * L) mk okn anypos (sb_u32_safe_cut fuel mem) ltac:(lia) sb_legal_32 (fun n => n))
+      with (n := M) (cs := cs) as [vs [E [Len J]]];
+      auto; try exact I; unfold okn, anypos, sb_legal_32 in *; try lia; try reflexivity.
     - intros; apply sb_u32_Hsafe; auto.
-    - exists vs. rewrite mk_start32, mk_end32 in E. rewrite mval_mod32 in J. auto.
+    - intros n0 c Hn0 Ho0 Hc0 Hw0. rewrite sb_u32_Hsafe by (auto; lia).
+      replace (Z.min c (8 * L - 0)) with (8 * L) by lia. rewrite Z.add_0_l. f_equal. f_equal.
+      unfold okn in Hn0. subst n0. rewrite field_whole by lia. apply mval_mod32.
+    - exists vs. rewrite mk_start32, mk_end32 in E. split; [exact E|]. split; [exact Len|].
+      destruct J as [J|J]; rewrite J; [apply mval_mod32|reflexivity].
   Qed.
+
 
   (** safe_cut never reads a byte index >= size: in the model an out-of-bounds read is [None], and every
       sequence of safe cuts from the start evaluates to [Some]. *)
@@ -590,11 +607,16 @@ Section SBSeq_32.
     exists vs st, run sb_u32 (sb_u32_safe_cut fuel mem) (mk_sb_u32 0 0 0 L) cs = Some (vs, st).
   Proof.
     intros HL Hl. rewrite <- mk_start32.
-    destruct (run_safe_spec sb_u32 (8 * L) mk okn sb_legal_32 anypos (sb_u32_safe_cut fuel mem)) with (cs := cs) (n := M) (s := 0)
-      as [vs [E _]]; auto; try exact I; unfold sb_legal_32, okn; try lia; try reflexivity.
+    destruct (run_safe_from_start sb_u32 (8 * L) mk okn anypos (sb_u32_safe_cut fuel mem) ltac:(lia) sb_legal_32 (fun n => n))
+      with (n := M) (cs := cs) as [vs [E _]];
+      auto; try exact I; unfold okn, anypos, sb_legal_32 in *; try lia; try reflexivity.
     - intros; apply sb_u32_Hsafe; auto.
+    - intros n0 c Hn0 Ho0 Hc0 Hw0. rewrite sb_u32_Hsafe by (auto; lia).
+      replace (Z.min c (8 * L - 0)) with (8 * L) by lia. rewrite Z.add_0_l. f_equal. f_equal.
+      unfold okn in Hn0. subst n0. rewrite field_whole by lia. apply mval_mod32.
     - eauto.
   Qed.
+
 End SBSeq_32.
 
 (** ** Sequence theorems for byte_splitter<_, _, u64> (widths: multiples of 8 up to 64) *)
@@ -665,21 +687,32 @@ Section BSSeq_64.
                length vs = length cs /\ joinf (combine vs (clip (8 * L) 0 cs)) = mval mem.
   Proof.
     intros HL Hl Hs.
-    destruct (safe_cut_sequence_reconstructs_gen bs_u64 (8 * L) mk okn bs_legal_64 bytepos (bs_u64_safe_cut fuel mem)) with (n := M) (cs := cs) as [vs [E [Len J]]];
-      auto using bs_u64_side1, bs_u64_side2, bs_u64_side3; unfold okn, bytepos; try lia; try reflexivity.
+    destruct (safe_cut_sequence_reconstructs_gen bs_u64 (8 * L) mk okn bytepos (bs_u64_safe_cut fuel mem) ltac:(lia) bs_legal_64 (fun n => n))
+      with (n := M) (cs := cs) as [vs [E [Len J]]];
+      auto using bs_u64_side1, bs_u64_side2, bs_u64_side3; try exact I; unfold okn, bytepos; try lia; try reflexivity.
     - intros; apply bs_u64_Hsafe; auto.
-    - exists vs. rewrite bs_u64_mk_start, bs_u64_mk_end in E. rewrite bs_u64_mval_mod in J. auto.
+    - intros n0 c Hn0 Ho0 Hc0 Hw0. rewrite bs_u64_Hsafe by (auto; lia).
+      replace (Z.min c (8 * L - 0)) with (8 * L) by lia. rewrite Z.add_0_l. f_equal. f_equal.
+      unfold okn in Hn0. subst n0. rewrite field_whole by lia. apply bs_u64_mval_mod.
+    - exists vs. rewrite bs_u64_mk_start, bs_u64_mk_end in E. split; [exact E|]. split; [exact Len|].
+      destruct J as [J|J]; rewrite J; [apply bs_u64_mval_mod|reflexivity].
   Qed.
+
 
   Theorem bs_u64_safe_cut_in_bounds cs : 8 * L < 2 ^ 31 -> Forall bs_legal_64 cs ->
     exists vs st, run bs_u64 (bs_u64_safe_cut fuel mem) (mk_bs_u64 0 0 L) cs = Some (vs, st).
   Proof.
     intros HL Hl. rewrite <- bs_u64_mk_start.
-    destruct (run_safe_spec bs_u64 (8 * L) mk okn bs_legal_64 bytepos (bs_u64_safe_cut fuel mem)) with (cs := cs) (n := M) (s := 0)
-      as [vs [E _]]; auto using bs_u64_side1, bs_u64_side2, bs_u64_side3; unfold okn, bytepos; try lia; try reflexivity.
+    destruct (run_safe_from_start bs_u64 (8 * L) mk okn bytepos (bs_u64_safe_cut fuel mem) ltac:(lia) bs_legal_64 (fun n => n))
+      with (n := M) (cs := cs) as [vs [E _]];
+      auto using bs_u64_side1, bs_u64_side2, bs_u64_side3; try exact I; unfold okn, bytepos; try lia; try reflexivity.
     - intros; apply bs_u64_Hsafe; auto.
+    - intros n0 c Hn0 Ho0 Hc0 Hw0. rewrite bs_u64_Hsafe by (auto; lia).
+      replace (Z.min c (8 * L - 0)) with (8 * L) by lia. rewrite Z.add_0_l. f_equal. f_equal.
+      unfold okn in Hn0. subst n0. rewrite field_whole by lia. apply bs_u64_mval_mod.
     - eauto.
   Qed.
+
 End BSSeq_64.
 
 (** ** ... and for byte_splitter<_, _, u32> *)
@@ -748,19 +781,30 @@ Section BSSeq_32.
                length vs = length cs /\ joinf (combine vs (clip (8 * L) 0 cs)) = mval mem.
   Proof.
     intros HL Hl Hs.
-    destruct (safe_cut_sequence_reconstructs_gen bs_u32 (8 * L) mk okn bs_legal_32 bytepos (bs_u32_safe_cut fuel mem)) with (n := M) (cs := cs) as [vs [E [Len J]]];
-      auto using bs_u32_side1, bs_u32_side2, bs_u32_side3; unfold okn, bytepos; try lia; try reflexivity.
+    destruct (safe_cut_sequence_reconstructs_gen bs_u32 (8 * L) mk okn bytepos (bs_u32_safe_cut fuel mem) ltac:(lia) bs_legal_32 (fun n => n))
+      with (n := M) (cs := cs) as [vs [E [Len J]]];
+      auto using bs_u32_side1, bs_u32_side2, bs_u32_side3; try exact I; unfold okn, bytepos; try lia; try reflexivity.
     - intros; apply bs_u32_Hsafe; auto.
-    - exists vs. rewrite bs_u32_mk_start, bs_u32_mk_end in E. rewrite bs_u32_mval_mod in J. auto.
+    - intros n0 c Hn0 Ho0 Hc0 Hw0. rewrite bs_u32_Hsafe by (auto; lia).
+      replace (Z.min c (8 * L - 0)) with (8 * L) by lia. rewrite Z.add_0_l. f_equal. f_equal.
+      unfold okn in Hn0. subst n0. rewrite field_whole by lia. apply bs_u32_mval_mod.
+    - exists vs. rewrite bs_u32_mk_start, bs_u32_mk_end in E. split; [exact E|]. split; [exact Len|].
+      destruct J as [J|J]; rewrite J; [apply bs_u32_mval_mod|reflexivity].
   Qed.
+
 
   Theorem bs_u32_safe_cut_in_bounds cs : 8 * L < 2 ^ 31 -> Forall bs_legal_32 cs ->
     exists vs st, run bs_u32 (bs_u32_safe_cut fuel mem) (mk_bs_u32 0 0 L) cs = Some (vs, st).
   Proof.
     intros HL Hl. rewrite <- bs_u32_mk_start.
-    destruct (run_safe_spec bs_u32 (8 * L) mk okn bs_legal_32 bytepos (bs_u32_safe_cut fuel mem)) with (cs := cs) (n := M) (s := 0)
-      as [vs [E _]]; auto using bs_u32_side1, bs_u32_side2, bs_u32_side3; unfold okn, bytepos; try lia; try reflexivity.
+    destruct (run_safe_from_start bs_u32 (8 * L) mk okn bytepos (bs_u32_safe_cut fuel mem) ltac:(lia) bs_legal_32 (fun n => n))
+      with (n := M) (cs := cs) as [vs [E _]];
+      auto using bs_u32_side1, bs_u32_side2, bs_u32_side3; try exact I; unfold okn, bytepos; try lia; try reflexivity.
     - intros; apply bs_u32_Hsafe; auto.
+    - intros n0 c Hn0 Ho0 Hc0 Hw0. rewrite bs_u32_Hsafe by (auto; lia).
+      replace (Z.min c (8 * L - 0)) with (8 * L) by lia. rewrite Z.add_0_l. f_equal. f_equal.
+      unfold okn in Hn0. subst n0. rewrite field_whole by lia. apply bs_u32_mval_mod.
     - eauto.
   Qed.
+
 End BSSeq_32.
